@@ -356,8 +356,22 @@ where
                     cx.outside.push((tq, "d.order-divides-h"));
                     cx.outside.push((sw_add(&P::COEFF_A, &tq, &cx.pool[1]), "d.subgroup+torsion"));
                     for l in primes.iter().take(2) {
-                        let e = &h / *l;
-                        let s = sw_from_proj::<P>(&ref_mul(&lift_sw::<P>(&tq), &e));
+                        // order-l component of tq: divide out the full power of l (h / l alone kills the l-part
+                        // whenever the l-torsion is not cyclic), then push down to order exactly l
+                        let lb = BigUint::from(*l);
+                        let mut e = h.clone();
+                        while (&e % &lb).is_zero() {
+                            e /= &lb;
+                        }
+                        let mut sp = ref_mul(&lift_sw::<P>(&tq), &e);
+                        loop {
+                            let next = ref_mul(&sp, &lb);
+                            if next.is_zero() {
+                                break;
+                            }
+                            sp = next;
+                        }
+                        let s = sw_from_proj::<P>(&sp);
                         if s != Sw::Inf && !cx.insub(&s) {
                             cx.outside.push((s, "d.small-order"));
                             cx.outside.push((sw_add(&P::COEFF_A, &s, &cx.pool[2]), "d.subgroup+small-order"));
